@@ -5,6 +5,7 @@ from .. import terms as T
 from ..cfg import CFG, calls_in
 from .. import protocol as P
 from .common import *  # noqa: F401,F403
+from . import api
 
 STATES = ("PositiveWaveFunction", "ComplexWaveFunction", "DensityMatrix")
 
@@ -102,39 +103,82 @@ def run(ck):
         if ep_loop is None or b_loop is None:
             ck.undecided("C12.R3", "loops", site, "epoch / batch loops not found around the events")
         else:
-            ep_t = ep_loop.ast.target
-            it_e = ep_loop.ast.iter
-            rng = it_e
-            if isinstance(it_e, ast.Call) and not (isinstance(it_e.func, ast.Name) and it_e.func.id == "range") and it_e.args:
-                rng = it_e.args[0]  # progress-bar wrapper
-            ok = (isinstance(rng, ast.Call) and isinstance(rng.func, ast.Name) and rng.func.id == "range" and len(rng.args) == 2
-                  and isinstance(rng.args[0], ast.Name) and rng.args[0].id == "starting_epoch")
-            stop_ok = None
-            if ok:
-                s = rng.args[1]
-                stop_ok = (isinstance(s, ast.BinOp) and isinstance(s.op, ast.Add) and {ast.unparse(s.left), ast.unparse(s.right)} == {"epochs", "1"})
-                if not stop_ok and ast.unparse(s) in ("epochs", "epochs - 1", "epochs + 2"):
-                    stop_ok = False
-                elif not stop_ok:
-                    stop_ok = None
-            lsite = "%s:%s:%d" % (fit.module.relpath, fit.qualname, ep_loop.lineno)
-            ck.check(True if ok and stop_ok else (False if ok and stop_ok is False else None), "C12.R3", "epoch range", lsite,
-                     "epoch loop iterates over %s; expected range(starting_epoch, epochs + 1)" % ast.unparse(rng))
-            bt = b_loop.ast.target
-            bi = b_loop.ast.iter
-            okb = (isinstance(bi, ast.Call) and isinstance(bi.func, ast.Name) and bi.func.id == "enumerate" and len(bi.args) == 1 and not bi.keywords
-                   and isinstance(bt, ast.Tuple) and len(bt.elts) == 2 and isinstance(bt.elts[0], ast.Name))
-            ck.check(True if okb else None, "C12.R3", "batch enumeration from 0", "%s:%s:%d" % (fit.module.relpath, fit.qualname, b_loop.lineno),
-                     "batch loop is not `for b, batch in enumerate(<iterator>)`: %s" % ast.unparse(b_loop.ast)[:80])
-            epn = ep_t.id if isinstance(ep_t, ast.Name) else None
-            bn = bt.elts[0].id if okb else None
-            want = {"on_train_start": ["self"], "on_train_end": ["self"], "on_epoch_start": ["self", epn], "on_epoch_end": ["self", epn],
-                    "on_batch_start": ["self", epn, bn], "on_batch_end": ["self", epn, bn]}
-            for nme, lst in ev_nodes.items():
-                for n, c in lst:
-                    got = [ast.unparse(a) for a in c.args]
-                    ck.check(got == want[nme] and not c.keywords, "C12.R3", "%s arguments" % nme, "%s:%s:%d" % (fit.module.relpath, fit.qualname, n.lineno),
-                             "%s is called with (%s); expected (%s)" % (nme, ", ".join(got), ", ".join(map(str, want[nme]))))
+            # Decided on values, not spellings: fit is interpreted with symbolic (starting_epoch, epochs) = (S0, E); the epoch
+            # loop must run over range(S0, E + 1) and every event must receive (state, its epoch[, its batch index from 0]).
+            for cls in STATES:
+                def thv(it, cls=cls):
+                    st_ = make_state(it, cls)
+                    data = tens(it, "data", ("N", "nv"))
+                    kw = {}
+                    if cls != "PositiveWaveFunction":
+                        kw["input_bases"] = tens(it, "input_bases", ("N", "nv"), kind="ndarray")
+                    call(it, st_, "fit", data, epochs=api.intsym("E"), starting_epoch=api.intsym("S0"), **kw)
+                    return st_
+
+                from ..ctx import stub_grad_lists
+
+                vpaths = [q for q in paths_of(prog, thv, max_paths=100, sticky=True, stubs={"NeuralStateBase.compute_batch_gradients": stub_grad_lists}) if q.outcome == "return"]
+                ck.check(bool(vpaths), "C12.R3", "fit/%s returns" % cls, site, "fit never returns")
+                for q in vpaths:
+                    it = q.interp
+                    lsite = "%s:%s:%d" % (fit.module.relpath, fit.qualname, ep_loop.lineno)
+                    li = [l for l in it.loops if l.get("node") is ep_loop.ast]
+                    if len(li) != 1:
+                        ck.undecided("C12.R3", "epoch range/%s" % cls, lsite, "the epoch loop was entered %d times on this path" % len(li))
+                        continue
+                    rg = li[0]["iter"]
+                    S0, E = T.sym("S0"), T.sym("E")
+                    if not isinstance(rg, VRange):
+                        ck.undecided("C12.R3", "epoch range/%s" % cls, lsite, "the epoch loop does not iterate over a range (or a wrapper that passes it through)")
+                        continue
+                    a_, b_, c_ = num_term(rg.start), num_term(rg.stop), num_term(rg.step)
+                    if a_ is None or b_ is None or c_ is None:
+                        ck.undecided("C12.R3", "epoch range/%s" % cls, lsite, "epoch range bounds are not arithmetic in (starting_epoch, epochs)")
+                    else:
+                        ck.check(a_ == S0 and b_ == E + 1 and c_ == T.ONE, "C12.R3", "epoch range/%s [%s]" % (cls, path_tag(q)), lsite,
+                                 "epoch loop iterates over range(%r, %r, %r); expected range(starting_epoch, epochs + 1)" % (a_, b_, c_))
+                    evs = [(n_, r_) for _k, n_, r_ in it.timeline if n_.startswith("CallbackList.on_") and n_.split(".")[1] in P.EVENTS]
+                    cur_ep = cur_b = None
+                    nb = 0
+                    for n_, r_ in evs:
+                        ev = n_.split(".")[1]
+                        vals = list(r_[1])[1:] if len(r_) > 1 else []  # drop the CallbackList receiver
+                        tv = [num_term(x) if not isinstance(x, VObj) else None for x in vals]
+                        esite = r_[3]
+                        okself = bool(vals) and isinstance(vals[0], VObj) and vals[0].inst is q.value.inst
+                        ck.check(okself, "C12.R3", "%s receives the state/%s" % (ev, cls), esite, "%s is not given the training state as first argument" % ev)
+                        if ev in ("on_train_start", "on_train_end"):
+                            ck.check(len(vals) == 1, "C12.R3", "%s arguments/%s" % (ev, cls), esite, "%s is called with %d arguments; expected (state)" % (ev, len(vals)))
+                            continue
+                        ep_t = tv[1] if len(tv) > 1 else None
+                        if ev == "on_epoch_start":
+                            first_epoch = cur_ep is None
+                            want_ep = S0 if first_epoch else None
+                            isloop = ep_t is not None and ep_t.single_atom() is not None and isinstance(ep_t.single_atom(), T.Sym) and ep_t.single_atom().name.startswith("i@")
+                            ck.check(ep_t is not None and (ep_t == S0 if first_epoch else isloop), "C12.R3", "on_epoch_start epoch number/%s" % cls, esite,
+                                     "on_epoch_start receives epoch %r; expected %s" % (ep_t, "starting_epoch in the first epoch" if first_epoch else "the loop's epoch number"))
+                            cur_ep = ep_t
+                            nb = 0
+                            ck.check(len(vals) == 2, "C12.R3", "on_epoch_start arguments/%s" % cls, esite, "on_epoch_start is called with %d arguments; expected (state, epoch)" % len(vals))
+                            continue
+                        ck.check(ep_t is not None and ep_t == cur_ep, "C12.R3", "%s epoch number/%s" % (ev, cls), esite, "%s receives epoch %r inside epoch %r" % (ev, ep_t, cur_ep))
+                        if ev == "on_epoch_end":
+                            ck.check(len(vals) == 2, "C12.R3", "on_epoch_end arguments/%s" % cls, esite, "on_epoch_end is called with %d arguments; expected (state, epoch)" % len(vals))
+                            continue
+                        b_t = tv[2] if len(tv) > 2 else None
+                        ck.check(len(vals) == 3, "C12.R3", "%s arguments/%s" % (ev, cls), esite, "%s is called with %d arguments; expected (state, epoch, batch)" % (ev, len(vals)))
+                        if ev == "on_batch_start":
+                            nb += 1
+                            cur_b = b_t
+                            if nb == 1:
+                                # the statement fixes order and multiplicity, not the numbering base: another base is left undecided
+                                ck.check(True if (b_t is not None and b_t == T.ZERO) else None, "C12.R3", "first batch of an epoch is batch 0/%s" % cls, esite, "the first batch of an epoch is announced as batch %r" % (b_t,))
+                            else:
+                                at = b_t.single_atom() if b_t is not None else None
+                                ck.check(True if (at is not None and isinstance(at, T.Sym) and at.name.startswith("enum_i@")) else None, "C12.R3", "later batches numbered consecutively from 0/%s" % cls, esite,
+                                         "a later batch is announced as batch %r; expected its position in the epoch (counted from 0)" % (b_t,))
+                        else:
+                            ck.check(b_t is not None and b_t == cur_b, "C12.R3", "on_batch_end batch number/%s" % cls, esite, "on_batch_end receives batch %r after on_batch_start announced %r" % (b_t, cur_b))
     # ------------------------------------------------------------------ R4 dispatchers and arities
     cbl = prog.cls("CallbackList")
     base = prog.cls("CallbackBase")
